@@ -45,6 +45,8 @@ pub struct Recv {
     pub answered_status: u16,
     pub seq: u64,
     pub wall_recv_ns: i128,
+    /// how long the host waited before it started to write its answer (stall faults, scripted delays)
+    pub answer_delay_ms: u64,
 }
 
 #[derive(Clone, Debug, Default)]
@@ -569,7 +571,7 @@ fn handle(st: &Shared, host: &'static str, conn: u64, idx: usize, m: Msg) -> Ans
         let _ = vrt::try_with(|w| w.count(&format!("fault.host_{}", kind)));
     }
     let status = ans.status;
-    g.log.push(Recv { host, conn, idx_on_conn: idx, msg: m, sig, latched_at_recv, token, kind, answered_status: status, seq, wall_recv_ns: vrt::time::wall_now_ns() });
+    g.log.push(Recv { host, conn, idx_on_conn: idx, msg: m, sig, latched_at_recv, token, kind, answered_status: status, seq, wall_recv_ns: vrt::time::wall_now_ns(), answer_delay_ms: ans.delay_ms });
     let _ = vrt::try_with(|w| w.log("host", format!("{} conn={} #{} {} -> {}", host, conn, idx, kind, status)));
     g.notify.notify_waiters();
     crate::crash::note_host_state(&g);
